@@ -178,4 +178,63 @@ PROPS = {
         "design_ref": "DESIGN.md §4 C18",
     },
 }
+_DW_RULE = ("op sequences (12-32 events after pod creation) on the REAL networkService + eni.Manager/eni.Local pools + bolt-backed resource "
+    "database (builder's InitResourceDB) + real pkg/k8s adapter over a fake API server and fake cloud, in a child process inside private "
+    "mount/network namespaces: ADD / DEL / GET with current, older and fresh sandbox IDs; requests parked inside GetPod with same-pod and "
+    "other-pod requests and GC attempts issued meanwhile; ADDs whose context ends while they are served; GC passes against generated "
+    "(store, API) combinations (live, exited sandbox, deleted, moved to another node, lookup failing, sticky); restarts (optionally with an ENI "
+    "detached) and crashes before/after the database write of a request; 1-3 ENIs x 1-3 addresses, single and dual stack, default and CRD IPAM. "
+    "Each line carries the observed GetPod answer and pool pick; state (records, pool bindings, pending set) is compared after every event. "
+    "non-trivial = every generated sequence; distinct = distinct line sequence.")
+_DW_TRUST = ["Model/Daemon.lean, Proofs/Daemon.lean (hand-written model + invariant)",
+    "hooks daemon/zz_verif_export.go, pkg/eni/zz_verif_export.go, pkg/k8s/zz_verif_export.go, pkg/storage/zz_verif_export.go",
+    "fake API server (controller-runtime fake client + server-side field selector) and fake cloud stand in for kube-apiserver and the ECS API",
+    "the harness observes the pool through Manager.Status() and waits until no Local.commit goroutine is left before reading it"]
+_DW_ASSUME = ["the pool is exactly full (MaxIPPerENI = addresses present), so no request goes to the cloud: allocation from the cloud is C01/C06/C07",
+    "single addresses do not vanish from an attached ENI (whole ENIs do)",
+    "one network interface type (secondary ENI, shared-ENI mode); trunk / ERDMA / PodENI (remote) resources are C10/C11"]
+
+PROPS["C04"] = {
+    "lean": ["C04"],
+    "required": ["C04.c04_concurrent_rejected", "C04.c04_rejected_until_leave", "C04.c04_stale_del_no_effect", "C04.c04_stale_get_hides",
+                 "C04.c04_get_no_effect", "C04.c04_repeat_add_same_address", "C04.c04_repeat_del_noop", "C04.c04_del_without_record_noop",
+                 "C04.c04_failed_add_before_pool", "C04.c04_failed_add_hands_back", "C04.c04_other_pods_untouched"],
+    "rule": _DW_RULE,
+    "technique": "Lean 4 theorems over a state-machine model of the daemon's request handling (pending set, record store, pool bindings) with an invariant proved for all histories; differential correspondence of every event against the real service",
+    "level_text": "Theorems for all states/histories: a request for a pod with one in flight is answered 'processing' with no effect; DEL/GET with a non-recorded sandbox ID change nothing and return no allocation; a repeated ADD returns the recorded addresses (under the all-histories invariant); a repeated DEL is a no-op; an ADD failing before or after the pool served it leaves the state unchanged; no request changes another pod's record or bindings. Goroutine schedules are covered at the granularity of the pending-set guard and the RW lock (requests parked in GetPod), not at instruction level: partial.",
+    "level_note": "Trusted: Lean kernel; the model is tied to the code by the correspondence run only. Not modelled: resourceDB.Put / defaultForNetConf failing after allocation (cannot be injected without changing behaviour), RemoteIP/trunk resources, cancellation at points other than 'before the pool' and 'while the pool serves'.",
+    "assumptions": _DW_ASSUME,
+    "trusted_base": _DW_TRUST,
+    "design_ref": "DESIGN.md §4 C04",
+    "timeout_quick": 1200, "timeout_thorough": 5400,
+}
+PROPS["C05"] = {
+    "lean": ["C05"],
+    "required": ["C05.c05_invariant_all_histories", "C05.c05_acknowledged_exclusive", "C05.c05_add_never_takes_recorded",
+                 "C05.c05_restart_keeps_acknowledged", "C05.c05_restart_frees_unrecorded", "C05.c05_restart_pool_is_cloud",
+                 "C05.c05_crash_before_write", "C05.c05_crash_after_write", "C05.c05_ack_add_recorded", "C05.c05_store_mirror",
+                 "C05.c05_kill_durable", "C05.c05_failed_readd_breaks_exclusivity"],
+    "rule": _DW_RULE + " Plus SIGKILL runs: a writer process opens the database as the builder does and performs a seed-determined Put/Delete stream, acknowledging each write; it is killed at a random instant; the file (read with bolt directly) must equal the state after the acknowledged prefix or one more write, and the reopened store must list exactly the file.",
+    "technique": "Lean 4: invariant (bound / recorded / no-share / distinct keys) proved by induction over all histories of requests, GC passes, restarts and crash points; store model with cut points; differential correspondence incl. real restarts from the bolt file and SIGKILL of a writer process",
+    "level_text": "Theorems: after every history of good events the invariant holds, hence every recorded address in the pool is bound to its pod and no two records name one address; restart rebinds every recorded address the cloud still reports and frees every unrecorded one; a crash before the database write leaves no trace, after it equals restart-after-completion; an acknowledged ADD is recorded; the store's disk-then-memory order makes every cut point reopen to the acknowledged prefix or one more write. bolt's own fsync/rollback behaviour is exercised by the SIGKILL runs, not proved: partial.",
+    "level_note": "Trusted: Lean kernel; bbolt's transactional commit (validated by SIGKILL runs, process kill only - no power-loss simulation); fake cloud. The history theorem excludes the recorded finding (a failing repeat ADD releasing an acknowledged address) and the repaired defect (a failing ADD keeping what it took); both are proved to break the invariant on concrete witnesses.",
+    "assumptions": _DW_ASSUME,
+    "trusted_base": _DW_TRUST + ["bbolt (github.com/boltdb/bolt) commit/recovery"],
+    "design_ref": "DESIGN.md §4 C05",
+    "timeout_quick": 1200, "timeout_thorough": 5400,
+}
+PROPS["C09"] = {
+    "lean": ["C09"],
+    "required": ["C09.c09_excluded_while_in_flight", "C09.c09_existing_untouched", "C09.c09_only_absent_collected",
+                 "C09.c09_absent_collected_within_two_passes", "C09.c09_idempotent", "C09.c09_outcome_independent", "C09.c09_pass_keeps_invariant"],
+    "rule": _DW_RULE,
+    "technique": "Lean 4 theorems over the GC decision function and its effect on store and pool (per-record characterisation, two-pass and fixpoint theorems); differential correspondence of real gcPods passes against generated (store, API server) combinations with the real k8s adapter",
+    "level_text": "Theorems for all stores, pools and API views: a pass does not run with a request in flight; a pod that is live, confirmed present, or whose lookup failed keeps its record and bindings; a record disappears only for a pod confirmed absent; within two passes a vanished pod's record is gone and its addresses unbound; a third pass over an unchanged world is the identity; a pod's outcome depends on its own record only; a pass keeps the allocation invariant. Kernel rule cleanup (gcPolicyRoutes) runs for real in the child's netns but its effect is C13's model, not this one: partial.",
+    "level_note": "Trusted: Lean kernel; fake API server; the harness computes the pass's view (live / exists / lookup-failed) from its own API state, independently of pkg/k8s. Not modelled: database or netlink errors aborting a pass (not injectable); cleanRuntimeNode (CRD mode NodeRuntime bookkeeping) is C03.",
+    "assumptions": _DW_ASSUME,
+    "trusted_base": _DW_TRUST,
+    "design_ref": "DESIGN.md §4 C09",
+    "timeout_quick": 1200, "timeout_thorough": 5400,
+}
+
 NOT_APPLICABLE = {}
